@@ -212,6 +212,8 @@ func TestVerifC02Generate(t *testing.T) {
 		if err != nil {
 			t.Fatal(err)
 		}
+		// JSON is YAML, except that YAML forbids a raw DEL: spell it as an escape
+		data = []byte(strings.ReplaceAll(string(data), "\x7f", `\u007f`))
 		if err := os.WriteFile(filepath.Join(dir, key+".yaml"), data, 0o644); err != nil {
 			t.Fatal(err)
 		}
